@@ -50,6 +50,7 @@ def generate(mod, only=None):
             rep.fingerprint = extract.fingerprint(body)
             obs = eng.verify(c, body, contracts)
             rep.obligations = obs
+            rep.pre_env = dict(eng.pre_state.env)
             # vacuity: precondition satisfiable, and a canary `False` postcondition must be refuted
             s = z3.Solver(); s.set("timeout", 5000)
             for h in eng.pre_state.pc:
